@@ -127,6 +127,14 @@ def alias(t):
     return a
 
 
+def tagged(n, t):
+    """`minicbor::data::Tagged<N, T>` as a field type (not the `tag` attribute): the tag is part of the value."""
+    if t.attrs or t.borrow:
+        raise ValueError("plain owned types only")
+    return T("minicbor::data::Tagged<%d, %s>" % (n, t.rust), "Ty::Tagged(%d, Box::new(%s))" % (n, t.ty), "minicbor::data::Tagged::<%d, %s>::new(%s)" % (n, t.rust, t.gen),
+             lambda x, t=t: "{ let inner = %s.value(); %s }" % (x, t.view("inner")), lifetime=False, default=False)
+
+
 def vec(t):
     if t.borrow:
         b = lambda x, is_b, t=t: (lambda inner: "for s in %s.iter() { %s }" % (x, inner) if inner else None)(t.borrow("s", is_b))
@@ -357,6 +365,8 @@ def gen_leaf_type(rnd, pool_named, allow_borrow):
             t = opt(vec(base)) if not base.borrow else opt(base)
         if rnd.random() < 0.12:
             t = alias(t)
+    if rnd.random() < 0.05 and not t.attrs and not t.borrow and not t.lifetime and not t.rust.startswith("Al"):
+        t = tagged(rnd.choice([0, 7, 24, 1000, 70000]), t)
     return t
 
 
@@ -519,6 +529,14 @@ def special_types():
     td.encoding = "map"
     td.fields = [Field("a", 0, U32, decl="P0"), Field("b", 1, alias(opt(BOOL)), tag=3), Field("c", 5, alias(vec(U8)))]
     td.params = [("P0", "u32")]
+    out.append(finish(td))
+    # Tagged<N, T> as a field type, also around nil-capable types and in front of present fields
+    td = TypeDef("TaggedTy")
+    td.fields = [Field("a", 0, tagged(7, opt(U8))), Field("b", 1, U8), Field("c", 2, tagged(24, opt(STRING))), Field("d", 3, tagged(1000, U16), tag=5), Field("e", 5, opt(tagged(9, I32)))]
+    out.append(finish(td))
+    td = TypeDef("TaggedTyMap")
+    td.encoding = "map"
+    td.fields = [Field("a", 0, tagged(7, opt(U8))), Field("b", 1, U8), Field("c", 30, tagged(70000, opt(vec(U8))))]
     out.append(finish(td))
     # borrowing Cows under #[b], with and without the bytes codec
     td = TypeDef("CowBorrow")
